@@ -254,7 +254,12 @@ example :
 `Sys` = a sending `Conn`, a receiving `Conn`, and `net`: everything the sender ever handed to its transport for the substream.
 A step is an application `send` at the sender — as one step, or fragment by fragment (`begin`, then one `frag` per turn of its
 loop) with keep-alive pings of the sender's timer task (`ping`, substream 0) and deliveries falling in between — or the delivery
-of *any* element of `net` to the receiver's `process_reliable` (any order, any number of times; never = loss). `Good` = the coupling `Cpl` with an L2 channel state + the channel invariants.
+of *any* element of `net` to the receiver (any order, any number of times; never = loss) — straight to `process_reliable`
+(`deliver`) or through the whole receive path `handle` (`deliverH`: state, signature, substream and session gates, the
+acknowledgement, then `process_reliable`; `handle_reliable_path`) — or the injection of ANY packet whose signature is not the
+one the receiver expects of it (`inject`: forged with other keys, altered in flight, of any type and flags; by C04's signature
+gate it changes nothing). So `C01_system_safety` is safety in the presence of an active attacker who cannot produce the
+expected signatures (HMAC assumption, C04). `Good` = the coupling `Cpl` with an L2 channel state + the channel invariants.
 Hypotheses of a run (`Sys.runOk`, decidable, checked step by step): a `send` is refused at once (closed connection, invalid
 substream) or runs to its end on a live link — an exception out of the transport in the middle of a message is excluded
 (it leaves a hole in the id sequence; the application saw the exception); a delivered copy is within half the id space of
@@ -316,15 +321,18 @@ theorem C01_system_liveness (env : Env) (hcomp : ∀ b, env.compress b = b) (hde
 
 open Nx.L1 Nx.Prudp in
 /-- the hypothesis `Good` holds at the start: for every environment, every substream the settings allow and every choice of
-    addresses, ports, session ids and random draws, two freshly constructed endpoints are coupled with the initial channel -/
+    addresses, ports, session ids, random draws, connection states and the receiver's record of the peer's session id, two
+    freshly constructed endpoints are coupled with the initial channel -/
 theorem C01_system_initial (env : Env) (sub : Nat) (hsub : sub ≤ env.s.maxSubstreamId)
-    (va vb : Option Nat) (ua ca sa ub cb sb : Nat) (la ra lb rb : Addr) (lpa lta rpa rta lpb ltb rpb rtb : Nat) (st : Nat) :
+    (va vb : Option Nat) (ua ca sa ub cb sb : Nat) (la ra lb rb : Addr) (lpa lta rpa rta lpb ltb rpb rtb : Nat) (st stb : Nat)
+    (rsb : Option Nat) :
     let a := { Conn.new env va ua ca sa la lpa lta ra rpa rta with state := st }
-    let b := Conn.new env vb ub cb sb lb lpb ltb rb rpb rtb
+    let b := { Conn.new env vb ub cb sb lb lpb ltb rb rpb rtb with state := stb, remoteSessionId := rsb }
     Good sub (cipherOf a sub) env.s.fragmentSize 1 (Sys.fresh a b) (Chan.init 1) :=
-  fresh_good env sub hsub va vb ua ca sa ub cb sb la ra lb rb lpa lta rpa rta lpb ltb rpb rtb st
+  fresh_good env sub hsub va vb ua ca sa ub cb sb la ra lb rb lpa lta rpa rta lpb ltb rpb rtb st stb rsb
 
-/-! non-vacuity of the system theorems: a run with a two-fragment message, reordering, duplication, a refused `send`, then a
+/-! non-vacuity of the system theorems: a run with a two-fragment message, reordering, duplication (one copy through the whole
+    receive path), a forged DISCONNECT, a refused `send`, then a
     three-fragment message sent fragment by fragment with a keep-alive ping between its fragments (and a second `send` that
     finds the lock taken) meets `Sys.runOk`, and the receiver ends up with exactly the accepted messages (stream transport here, i.e. no RC4, only so
     that the kernel evaluates the run in a second rather than minutes — RC4's key schedule on kernel arrays is slow; the theorems
@@ -333,8 +341,9 @@ open Nx.L1 Nx.Prudp in
 example :
     let env : Env := { C04.toyEnv with s := { fragmentSize := 2, transport := TRANSPORT_TCP } }
     let a := { Conn.new env (some 1) 1 2 3 ("10.0.0.2", 1) 15 10 ("10.0.0.1", 2) 1 10 with state := STATE_CONNECTED }
-    let b := Conn.new env (some 1) 4 5 6 ("10.0.0.1", 2) 1 10 ("10.0.0.2", 1) 15 10
-    let ops := [SysOp.send 0 [1, 2, 3], .deliver 1, .deliver 1, .deliver 0, .send 5 [], .deliver 7,
+    let b := { Conn.new env (some 1) 4 5 6 ("10.0.0.1", 2) 1 10 ("10.0.0.2", 1) 15 10 with state := STATE_CONNECTED, remoteSessionId := some 3 }
+    let forged : Packet := { type := TYPE_DISCONNECT, flags := 6, packetId := 1, sessionId := 3, signature := some [99] }
+    let ops := [SysOp.send 0 [1, 2, 3], .deliver 1, .inject 1 forged, .deliverH 2 1, .deliverH 3 0, .send 5 [], .deliver 7,
                 .begin 6 [4, 5, 6, 7, 8], .frag 6, .ping 7, .send 7 [9], .frag 8, .frag 9, .deliver 5, .deliver 3, .deliver 4, .deliver 2]
     Sys.runOk env 0 (Sys.fresh a b) ops = true ∧
     (Sys.run env 0 (Sys.fresh a b) ops).b.queues = [[[1, 2, 3], [4, 5, 6, 7, 8]]] ∧
